@@ -124,3 +124,11 @@ def point_tools_at(wr, modules=TOOL_MODULES):
 
 def rules_dir(name="R"):
     return os.path.join(worker_root(), "Rules", name)
+
+
+def child_env(**kw):
+    """environment of a real tool process: the sandbox's own PYTHONUNBUFFERED is not what a user's shell has, and with
+    it a pipe on stdout is never block-buffered (so nothing could be lost in a buffer)"""
+    env = {k: v for k, v in os.environ.items() if k != "PYTHONUNBUFFERED"}
+    env.update(kw)
+    return env
